@@ -1,7 +1,7 @@
 (* C06 — absolute IDs are injective up to case, connection IDs identify one connection.
    1. A dot-joined path of printed IDs splits back into the IDs at its top-level dots (quote-aware
       lexer split_top), and the lexer commutes with any rune map that preserves the four characters
-      it looks at (. " ' \): so equal lower-cased absolute IDs have equal lower-cased ID arrays.
+      it looks at (dot, double quote, single quote, backslash): so equal lower-cased absolute IDs have equal lower-cased ID arrays.
    2. In a well-formed graph (C09) equal lower-cased ID arrays lead to the same object (walk down from
       the root through the Children maps).
    3. Connect's index invariant (no two connections agree on end points, arrows and index) is preserved
@@ -307,6 +307,30 @@ Qed.
 
 End Tree.
 
+
+(* the boolean form of the index invariant evaluated on the implementation's boards *)
+Lemma ekey_eqb_eq a b : ekey_eqb a b = true <-> ekey a = ekey b.
+Proof.
+  unfold ekey_eqb, ekey. rewrite !andb_true_iff, !Nat.eqb_eq, !eqb_true_iff. split.
+  - intros [[[[A B] C] D] E]. congruence.
+  - intro H. inversion H. repeat split; assumption.
+Qed.
+
+Lemma edges_distinct_iff l : edges_distinct_b l = true <-> NoDup (map ekey l).
+Proof.
+  induction l as [|e tl IH]; simpl.
+  - split; intro; [constructor|reflexivity].
+  - rewrite andb_true_iff, negb_true_iff, IH. split.
+    + intros [H1 H2]. constructor; [|exact H2]. intro Hin. apply in_map_iff in Hin as [e' [K He']].
+      assert (existsb (ekey_eqb e) tl = true) as X.
+      { apply existsb_exists. exists e'. split; [exact He'|]. apply ekey_eqb_eq. symmetry. exact K. }
+      congruence.
+    + intro H. inversion H as [|? ? H1 H2]; subst. split; [|exact H2].
+      destruct (existsb (ekey_eqb e) tl) eqn:X; [|reflexivity].
+      apply existsb_exists in X as [e' [He' K]]. apply ekey_eqb_eq in K.
+      exfalso. apply H1. apply in_map_iff. exists e'. split; [symmetry; exact K|exact He'].
+Qed.
+
 (* ------------------------------------------------------------------ 3. names and indices along operations *)
 
 Section Ops.
@@ -374,25 +398,30 @@ Definition EdgeInv (g : graph) : Prop :=
 Lemma same_class_refl e : same_class (e_src e) (e_dst e) (e_sa e) (e_da e) e = true.
 Proof. unfold same_class. rewrite !Nat.eqb_refl, !eqb_reflx. reflexivity. Qed.
 
+Lemma same_class_refl_mk s d sa da n : same_class s d sa da (mkEdge s d sa da n) = true.
+Proof. unfold same_class. simpl. rewrite !Nat.eqb_refl, !eqb_reflx. reflexivity. Qed.
+
 Lemma edgeinv_add g s d sa da :
   EdgeInv g ->
   let e := mkEdge s d sa da (length (filter (same_class s d sa da) (g_edges g))) in
   NoDup (map ekey (g_edges g ++ [e])) /\ (forall e', In e' (g_edges g ++ [e]) -> e_idx e' < class_count e' (g_edges g ++ [e])).
 Proof.
-  intros [ND B] e. split.
-  - rewrite map_app. simpl.
-    assert (NI : ~ In (ekey e) (map ekey (g_edges g))).
-    { intro H. apply in_map_iff in H as [e' [K He']]. unfold ekey in K. inversion K as [[K1 K2 K3 K4 K5]].
-      pose proof (B e' He') as L. unfold class_count in L. rewrite K1, K2, K3, K4 in L. simpl in L, K5. lia. }
+  intros [ND B] e. subst e. split.
+  - rewrite map_app. cbn [map].
+    set (n := length (filter (same_class s d sa da) (g_edges g))).
+    assert (NI : ~ In (ekey (mkEdge s d sa da n)) (map ekey (g_edges g))).
+    { intro H. apply in_map_iff in H as [e' [K He']]. unfold ekey in K. cbn in K.
+      inversion K as [[K1 K2 K3 K4 K5]].
+      pose proof (B e' He') as L. unfold class_count in L. rewrite K1, K2, K3, K4 in L. fold n in L. lia. }
     clear B. induction (map ekey (g_edges g)) as [|x tl IH]; simpl.
     + constructor; [intros []|constructor].
     + inversion ND; subst. constructor.
-      * rewrite in_app_iff. intros [H|[H|[]]]; [contradiction|]. apply NI. left. exact H.
+      * rewrite in_app_iff. intros [H|[H|[]]]; [contradiction|]. apply NI. left. symmetry. exact H.
       * apply IH; [assumption|]. intro H. apply NI. right. exact H.
   - intros e' H. unfold class_count. rewrite filter_app, app_length.
     apply in_app_or in H as [H|[H|[]]].
     + pose proof (B e' H). unfold class_count in *. lia.
-    + subst e'. simpl. rewrite !Nat.eqb_refl, !eqb_reflx. simpl. lia.
+    + subst e'. cbn [filter e_src e_dst e_sa e_da e_idx]. rewrite same_class_refl_mk. simpl. lia.
 Qed.
 
 Lemma edgeinv_init : EdgeInv init.
@@ -467,11 +496,11 @@ Proof.
   intros W L. destruct (wf_reach _ _ W k L) as [n Hn].
   destruct (ipath_exists lower g W n k (or_intror L) Hn) as [ids [names [IP Len]]].
   pose proof (depth_bound lower g n k W L Hn) as DB.
+  assert (Ne : ids <> []).
+  { intro E. rewrite E in Len. simpl in Len. rewrite <- Len in Hn. simpl in Hn. inversion Hn as [Hk].
+    rewrite Hk in L. destruct (wf_rootobj _ _ W) as [N0 _]. contradiction. }
   destruct (abs_ids_f_ipath g k ids names IP (root_parent_none g W) (S (length (g_objs g)))) as [A B]; [lia|].
-  exists ids, names. repeat split; try assumption.
-  intro E. subst ids. inversion IP as [E0|]; subst.
-  - destruct (wf_rootobj _ _ W) as [N0 _]. contradiction.
-  - match goal with H : _ ++ [_] = [] |- _ => apply app_eq_nil in H as [_ H]; discriminate end.
+  exists ids, names. split; [exact IP|split; [exact A|split; [exact B|exact Ne]]].
 Qed.
 
 Lemma ipath_named g : Named g -> WF g -> forall k ids names, ipath g k ids names -> ids = map obj_id names.
@@ -488,8 +517,9 @@ Lemma absid_parses_back g k : WF g -> Named g -> listed g k ->
 Proof.
   intros W Nm L Hz.
   destruct (abs_ids_spec g k W L) as [ids [names [IP [A [B Ne]]]]].
-  unfold abs_id. rewrite A, B in *. rewrite (ipath_named g Nm W k ids names IP) in *.
-  apply path_parses_back; [|exact Hz]. intro E. subst names. apply Ne. reflexivity.
+  pose proof (ipath_named g Nm W k ids names IP) as Nn.
+  unfold abs_id. rewrite A, Nn. rewrite B in Hz |- *.
+  apply path_parses_back; [|exact Hz]. intro E. apply Ne. rewrite Nn, E. reflexivity.
 Qed.
 
 Lemma absid_injective g k1 k2 : class_pres lr -> WF g -> Named g -> listed g k1 -> listed g k2 ->
